@@ -86,6 +86,18 @@ type world struct {
 	busyPeers  int32
 	wg         sync.WaitGroup
 	log        []string
+	hc         *http1.HostClient
+	overshoots int32
+	// reuse of a connection after a stalled exchange: a violation only if the client's call for
+	// the stalled exchange really failed (decided after all calls returned, from the call results —
+	// under heavy machine load the 40 ms read deadline can lose the race against the 130 ms stall,
+	// the call then succeeds and reusing the connection is legitimate)
+	stallReuse []stallReuse
+}
+
+type stallReuse struct {
+	conn        int
+	id, stalled string
 }
 
 func (w *world) violate(f string, a ...interface{}) {
@@ -124,9 +136,13 @@ func (c *clientEnd) Write(p []byte) (int, error) {
 }
 
 // deadline setters of a TCP socket do not fail because the peer has closed
-func (c *clientEnd) SetDeadline(t time.Time) error      { return c.maskPeerClosed(c.Conn.SetDeadline(t)) }
-func (c *clientEnd) SetReadDeadline(t time.Time) error  { return c.maskPeerClosed(c.Conn.SetReadDeadline(t)) }
-func (c *clientEnd) SetWriteDeadline(t time.Time) error { return c.maskPeerClosed(c.Conn.SetWriteDeadline(t)) }
+func (c *clientEnd) SetDeadline(t time.Time) error { return c.maskPeerClosed(c.Conn.SetDeadline(t)) }
+func (c *clientEnd) SetReadDeadline(t time.Time) error {
+	return c.maskPeerClosed(c.Conn.SetReadDeadline(t))
+}
+func (c *clientEnd) SetWriteDeadline(t time.Time) error {
+	return c.maskPeerClosed(c.Conn.SetWriteDeadline(t))
+}
 
 func (c *clientEnd) maskPeerClosed(err error) error {
 	if err != nil && strings.Contains(err.Error(), "closed pipe") && atomic.LoadInt32(&c.localClosed) == 0 {
@@ -159,8 +175,19 @@ func (w *world) dial(n int, addr string) (net.Conn, error) {
 		time.Sleep(15 * time.Millisecond)
 	}
 	open := atomic.AddInt32(&w.open, 1)
+	// The bound is on the connections the host client counts (dialing + in use + idle). At this
+	// point the connection being dialed is already counted, so the gauge must be within the bound
+	// here, at the very moment the pool grows. (The number of sockets open at the network level may
+	// exceed the bound for an instant: closeConn gives the slot back before it closes the socket.
+	// The statement bounds the counted connections, so that overshoot is not a violation; socket
+	// conservation is checked at quiescence.)
+	if hc := w.hc; hc != nil {
+		if st := hc.ConnPoolState(); st.TotalConnNum > w.plan.MaxConns {
+			w.violate("connection bound exceeded: ConnPoolState().TotalConnNum=%d at dial %d with MaxConns=%d", st.TotalConnNum, d, w.plan.MaxConns)
+		}
+	}
 	if int(open) > w.plan.MaxConns {
-		w.violate("connection bound exceeded: %d connections open at dial %d with MaxConns=%d", open, d, w.plan.MaxConns)
+		atomic.AddInt32(&w.overshoots, 1)
 	}
 	id := int(atomic.AddInt32(&w.dialed, 1))
 	cc, sc := net.Pipe()
@@ -181,6 +208,7 @@ func (w *world) peer(connID int, c net.Conn) {
 	defer c.Close()
 	var buf []byte
 	tainted := ""
+	stalledID := ""
 	tmp := make([]byte, 4096)
 	for {
 		// read one complete request
@@ -220,6 +248,11 @@ func (w *world) peer(connID int, c net.Conn) {
 		w.logf("conn%d: received %s id=%s fault=%s", connID, req.Method, id, faultNames[fault%nFaults])
 		if tainted != "" {
 			w.violate("conn%d received request id=%s although the connection must not be reused (%s)", connID, id, tainted)
+		}
+		if stalledID != "" {
+			w.mu.Lock()
+			w.stallReuse = append(w.stallReuse, stallReuse{connID, id, stalledID})
+			w.mu.Unlock()
 		}
 		if len(rest) > 0 {
 			w.violate("conn%d: a second request arrived before the first (id=%s) was answered: the connection carries two requests at a time", connID, id)
@@ -268,7 +301,7 @@ func (w *world) peer(connID int, c net.Conn) {
 			c.SetWriteDeadline(time.Now().Add(200 * time.Millisecond)) //nolint:errcheck
 			c.Write(response(id, ""))                                  //nolint:errcheck
 			if timeouted {
-				tainted = "the exchange of id=" + id + " timed out on the client"
+				stalledID = id
 			}
 		}
 		done()
@@ -294,6 +327,7 @@ func runPlan(p *Plan) (string, *world) {
 	opts := http1.ClientOptions{MaxConns: p.MaxConns, MaxConnWaitTimeout: time.Duration(p.WaitTimeout) * time.Millisecond, MaxIdleConnDuration: time.Hour, DialTimeout: time.Second}
 	cl := cli.New(opts, w.dial)
 	hc := cl.HC
+	w.hc = hc
 	var results []callResult
 	var rmu sync.Mutex
 	var wg sync.WaitGroup
@@ -383,6 +417,14 @@ func runPlan(p *Plan) (string, *world) {
 		}
 	}
 	w.mu.Lock()
+	for _, sr := range w.stallReuse {
+		for _, res := range results {
+			if res.id == sr.stalled && res.err != nil {
+				w.mu.Unlock()
+				return fmt.Sprintf("conn%d received request id=%s although the connection must not be reused (the exchange of id=%s failed on the client with %q: the peer stalled past the read timeout)", sr.conn, sr.id, sr.stalled, res.err), w
+			}
+		}
+	}
 	for id, n := range w.recv {
 		r, ok := byID[id]
 		if ok && r.Method == "POST" && n > 1 {
@@ -538,6 +580,9 @@ func TestC10Histories(t *testing.T) {
 			log := strings.Join(w.log, "\n  ")
 			w.mu.Unlock()
 			t.Fatalf("%s\nplan: %+v\nhistory:\n  %s", msg, *p, log)
+		}
+		if atomic.LoadInt32(&w.overshoots) > 0 {
+			rec.Class("sockets-open-above-bound-for-an-instant-while-a-close-is-in-flight", 1)
 		}
 		if nt && rec.WantSample() {
 			rec.Sample(p)
